@@ -637,7 +637,7 @@ func exec(c px.Context, op string, args []sx.Sexp) core.Result {
 		if inc := h.IncludesKey(k); inc != found {
 			return core.Fail(out, "includes-differs", "IncludesKey="+sx.B(inc))
 		}
-		if !comparable(args[0]) || !comparable(args[1]) || dupKeys(h) {
+		if !comparable(args[0]) || !comparable(args[1]) || dupKeys(h) || dupKeys(k) {
 			res.Pred = "n/a"
 			return res
 		}
